@@ -24,6 +24,11 @@ LEVEL_NOTE = ("Model fidelity is checked, not proved. Layered correspondence: th
 OPS = {"swap", "pm_inverse", "jsa", "pm_integrand", "pm_coinc", "pm_coinc_gl", "norms", "counts_corr"}
 TOL = {"pm_integrand": ("crel", 1e-11), "pm_coinc": ("csum", 1e-10), "pm_coinc_gl": ("csum", 1e-10), "jsa": ("rel", 1e-11), "norms": ("rel", 1e-11),
        "counts_corr": ("rel", 1e-12)}
+# COMPOSED end-to-end model (Model/Compose.lean, notes/compose.md): primitive setup only on the K line; the model recomputes
+# indices, angles, walk-off, k_eff, apodisation AND the integrand / Simpson z-integral from them.  Observed worst:
+# integrand 6.3e-16 of the modulus, z-integral 3.9e-16 of the absolute quadrature sum (3 × 3000 setups).
+OPS |= {"cmp_integrand", "cmp_pm_coinc"}
+TOL.update({"cmp_integrand": ("crel", 5e-14), "cmp_pm_coinc": ("csum", 5e-14)})
 DEFAULT_TOL = ("exact",)
 RULE = ("family pm/k: random general setups (11 crystals × 5 PM types, non-collinear signal up to 3° external with arbitrary azimuth, "
         "optimum or arbitrary idler, unequal waists 15–400 µm, elliptical pump, waist positions, poled/unpoled with every apodisation "
@@ -33,10 +38,11 @@ RULE = ("family pm/k: random general setups (11 crystals × 5 PM types, non-coll
 RESIDUAL = ("floating-point rounding (measured: |jsa_S − jsa_swap| ≤ ~1e-10·|jsa|); non-vanishing of A1..A4, denom1, denom2 is a "
             "hypothesis of the theorems and checked by evaluation only; the singles integrand is not modelled")
 TRUSTED_EXTRA = ["tools/props/_pmtol.py: complex-aware comparison (|Δ| relative to the modulus / to the absolute quadrature sum)"]
-CHECKER_MODULES = ["Spdc.Real.PM", "Spdc.Real.Jsa"]
+CHECKER_MODULES = ["Spdc.Real.PM", "Spdc.Real.Jsa", "Spdc.Real.ComposeLemmas"]
 
 
 def families(tier, seed):
     if tier == "quick":
-        return [("pm", seed, 1500, ["k"]), ("pm", seed, 1500, ["c06"])]
-    return [("pm", seed, 4000, ["k"]), ("pm", seed + 1000, 4000, ["k"]), ("pm", seed, 3000, ["c06"])]
+        return [("pm", seed, 1500, ["k"]), ("pm", seed, 1500, ["c06"]), ("compose", seed, 3000, ["c06"])]
+    return [("pm", seed, 4000, ["k"]), ("pm", seed + 1000, 4000, ["k"]), ("pm", seed, 3000, ["c06"]),
+            ("compose", seed, 30000, ["c06"])]
